@@ -50,6 +50,22 @@ def menu(ctx: Ctx, rng: random.Random) -> list[dict]:
                                                 "via": ["deepcopy"]},
          "b": {"cls": "BBAN", "text": cps("370400440532013000"), "cc": cps("DE"), "via": ["pickle2"]}},
     ]
+    # near-collisions: calls that differ in ONE argument only (a flag, the country) - what a cache
+    # with an incomplete key would confuse
+    zeros = "0" * 16
+    m += [
+        {"op": "iban.from_bban", "cc": cps("AT"), "bban": cps(zeros), "ai": False, "vb": False},
+        {"op": "iban.from_bban", "cc": cps("BA"), "bban": cps(zeros), "ai": False, "vb": False},
+        {"op": "iban.new", "t": cps("AT" + gen.check_digits("AT", zeros) + zeros), "vb": False},
+        {"op": "iban.new", "t": cps("BA" + gen.check_digits("BA", zeros) + zeros), "vb": False},
+        {"op": "iban.new", "t": cps("NO7586011117948"), "vb": False},
+        {"op": "bic.new", "t": cps("1234DEWWXXX"), "strict": False},
+        {"op": "bic.validate", "t": cps("1234DEWWXXX"), "strict": True},
+        {"op": "bic.lookup", "cc": cps("AT"), "code": cps("43060967")},
+        {"op": "iban.random", "country": cps("DE"), "seed": 7, "use_registry": False, "pinned": [], "vals": {}},
+        {"op": "iban.random", "country": cps("BR"), "seed": 1, "use_registry": True, "pinned": [], "vals": {}},
+        {"op": "iban.random", "country": [], "seed": 219, "use_registry": True, "pinned": [], "vals": {}},
+    ]
     # bank keys with several entries of mixed primary flags whose first listed entry is not primary:
     # lookups on them must not disturb each other (the registry is frozen)
     import c12
@@ -106,9 +122,9 @@ def run(ctx: Ctx) -> dict:
     # after each call must equal the post-import digest, so each history starts from it)
     pairs = [list(p) for p in itertools.product(range(len(m)), repeat=2)]
     if ctx.quick:
-        tail = list(range(len(m) - 8, len(m)))          # always: everything against the lookup / bank calls
+        tail = list(range(len(m) - 19, len(m)))          # always: everything against the lookup / bank calls
         keep = [p for p in pairs if p[0] in tail or p[1] in tail]
-        pairs = keep + rng.sample([p for p in pairs if p not in keep], 700)
+        pairs = keep + rng.sample([p for p in pairs if p not in keep], 400)
     hists = [[i] for i in range(len(m))] + pairs
     sub = list(range(0, len(m), max(1, len(m) // 12)))[:12]
     triples = [list(p) for p in itertools.product(sub, repeat=3)]
